@@ -2,8 +2,8 @@
 
     Go function (file:line at HEAD)                              model
     ----------------------------------------------------------   -----------------------------------
-    replication.ReplayerImpl.Replay (replay.go:39-65)             replay_tg  (flag = wtsets[0].RecordType == VARIABLE
-                                                                              for EVERY set; stops at the first error)
+    replication.ReplayerImpl.Replay (replay.go:39-65)             replay_tg  (flag = the set's own RecordType == VARIABLE;
+                                                                              stops at the first error)
     replication.wtSetToCS (replay.go:77-127)                      wtset_to_cs
     replication.serializeVariableRecords (replay.go:130-175)      var_rows   (Epoch = interval start for every row; the
                                                                               seconds returned by GetTimeFromTicks are dropped)
@@ -279,15 +279,16 @@ Section Repl.
         end
     end.
 
-  (** Replay: every set is written with the FIRST set's record type as the variable-length flag *)
-  Fixpoint replay_sets (flag : bool) (st : store) (sets : list ws) : rres :=
+  (** Replay: every set is written with ITS OWN record type as the variable-length flag
+      (fix: "replay each write set of a transaction group with its own record type") *)
+  Fixpoint replay_sets (st : store) (sets : list ws) : rres :=
     match sets with
     | [] => ROk st
     | w :: rest =>
         match wtset_to_cs w with
         | COk c =>
-            match write_csm flag st c with
-            | ROk st' => replay_sets flag st' rest
+            match write_csm (ws_rt w =? RT_VARIABLE) st c with
+            | ROk st' => replay_sets st' rest
             | r => r
             end
         | CErr => RErr st
@@ -296,11 +297,7 @@ Section Repl.
         end
     end.
 
-  Definition replay_tg (st : store) (tg : list ws) : rres :=
-    match tg with
-    | [] => ROk st
-    | w0 :: _ => replay_sets (ws_rt w0 =? RT_VARIABLE) st tg
-    end.
+  Definition replay_tg (st : store) (tg : list ws) : rres := replay_sets st tg.
 
   (** replication.Receiver.Run (receiver.go:40-62): the replica applies the transmitted TGs in order and
       STOPS at the first replay error ("There will be data inconsistency between master and replica") *)
@@ -415,12 +412,10 @@ Section Repl.
 
   Definition retick (w : ws) : ws := if ws_rt w =? RT_VARIABLE then retick_ws w else w.
 
-  Fixpoint tg_fixed_okb (st : store) (tg : list ws) : bool :=
-    match tg with [] => true | w :: r => fixed_okb st w && tg_fixed_okb (master_ws st w) r end.
-  Fixpoint tg_var_okb (st : store) (tg : list ws) : bool :=
-    match tg with [] => true | w :: r => var_okb st w && tg_var_okb (master_ws st (retick_ws w)) r end.
-  (** a homogeneous, well-formed transaction group *)
-  Definition tg_okb (st : store) (tg : list ws) : bool := tg_fixed_okb st tg || tg_var_okb st tg.
+  (** a well-formed write set, FIXED or VARIABLE; a transaction group may mix them *)
+  Definition ws_okb (st : store) (w : ws) : bool := fixed_okb st w || var_okb st w.
+  Fixpoint tg_okb (st : store) (tg : list ws) : bool :=
+    match tg with [] => true | w :: r => ws_okb st w && tg_okb (master_ws st (retick w)) r end.
   Fixpoint run_okb (st : store) (tgs : list (list ws)) : bool :=
     match tgs with [] => true | tg :: r => tg_okb st tg && run_okb (master_tg st (map retick tg)) r end.
 End Repl.
